@@ -252,6 +252,42 @@ def r05_2(ctx, name, f, pv, rdrs_field, summaries):
             eqs = [d for d in p.decisions if is_call(d[2], '::eq') or is_call(d[2], '::ne')]
             ok = ok or all((is_call(d[2], '::eq') and d[3] == 0) or (is_call(d[2], '::ne') and d[3] == 1) for d in eqs)
         ctx.check(R, ok, 'difference:unique', 'difference must emit a key of the first stream iff no drained slot of the other streams equals it', fn=f)
+        # the flag itself: the emit is guarded by a bool that starts true for each candidate and is cleared exactly on the paths
+        # where a drained slot's key EQUALS the candidate
+        flags = set()
+        for p in emits:
+            for d in p.decisions:
+                e = d[2]
+                if e[0] == 'havoc' and len(e[1]) == 1 and f.local_ty(e[1][0]) == 'bool' and d[3] == 1:
+                    flags.add(e[1][0])
+        if len(flags) != 1:
+            ctx.undecided(R, 'difference:flag', 'the emit of difference is not guarded by one loop-carried bool flag (%d found): form not decided' % len(flags), fn=f)
+            return
+        U = flags.pop()
+        n_clear = 0
+        for p in explore(f, max_visits=1, havoc=True, limit=3000):
+            for k, bid in enumerate(p.blocks):
+                for i, st in enumerate(f.blocks[bid]['stmts']):
+                    if st['k'] == 'assign' and not st['place']['proj'] and st['place']['local'] == U:
+                        v = p.sym.rvalue_at(st['rv'], (k, i))
+                        if v == ('const', 0):
+                            n_clear += 1
+                            eqs = [d for d in p.decisions if d[0] <= k and (is_call(d[2], '::eq') or is_call(d[2], '::ne') or (d[2][0] == 'bin' and d[2][1] in ('Eq', 'Ne')))
+                                   and any(is_call(x, 'Slot::input') for x in walk(d[2]))]
+                            if not eqs:
+                                ctx.violation(R, 'difference:flag', 'the "no other stream holds the key" flag is cleared on a path that does not compare the drained slot\'s key with the candidate: keys of the first stream disappear', fn=f, at=st.get('span'))
+                            else:
+                                e, o = eqs[-1][2], eqs[-1][3]
+                                is_eq = is_call(e, '::eq') or (e[0] == 'bin' and e[1] == 'Eq')
+                                ctx.check(R, is_eq == (o == 1), 'difference:flag', 'the "no other stream holds the key" flag must be cleared exactly when a drained slot\'s key EQUALS the candidate (here it is cleared when they differ): keys present in other streams are emitted, keys merely preceded by smaller keys are dropped', fn=f)
+                        elif v == ('const', 1):
+                            # re-armed for every candidate: the initialisation sits inside the candidate loop
+                            in_loop = any(bid in body for body in f.loops().values())
+                            ctx.check(R, in_loop, 'difference:flag-per-candidate', 'the flag is set to true outside the per-candidate loop: once one key was found in another stream every later key is dropped too', fn=f)
+                        else:
+                            ctx.undecided(R, 'difference:flag', 'the flag receives a value that is not a literal: %s' % fmt(v)[:60], fn=f)
+        if n_clear == 0:
+            ctx.violation(R, 'difference:flag', 'the flag guarding the emit of difference is never cleared: every key of the first stream is emitted', fn=f)
         return
     for c, (init, kind) in sorted(cf.items()):
         if kind.startswith('bad:'):
